@@ -328,6 +328,12 @@ def cli_query(ctx, q, m, b, exprs, spec, tag):
                               and all(v == ','.join(repr(x) for x in qr.get_values(i, flat=True)) for v, i in zip(vals, idx)))
                 except Exception as ex:
                     ok = False
+                if ok and flags == ['-j']:
+                    so2, se2, exc2, code2 = run_cli(['query'] + flags + [expr, path, path])
+                    ctx.count('cli_query_two_file_runs')
+                    if exc2 is not None or so2 != so + so:
+                        ctx.violate('cli-query-several-files', 'pybufrkit query over two copies of a file does not print the single-file output twice',
+                                    dict(spec, expr=expr, cli=flags), observed=so2[:400])
                 if not ok:
                     ctx.violate('cli-query-output-differs/%s' % name,
                                 'pybufrkit query %s %r prints other values/subsets than the querent returns (%r)' % (flags, expr, want),
